@@ -396,7 +396,7 @@ DICT_PAIR = ('dict-limit', 'evolution',
 
 def gen_pairs(rng, tier):
     pairs = list(FIXED) + [DICT_PAIR]
-    n = 3 if tier == 'quick' else 40
+    n = 5 if tier == 'quick' else 40
     for i in range(n):
         b = Base(rng, f'ev{i}')
         pairs.append((f'evolution-{i}', 'evolution', b.render({}), b.render({'*': 'all'})))
@@ -751,7 +751,7 @@ def gen_c19(rng, tier):
     scale = 1 if tier == 'quick' else 8
     # the minimal run first (the former failing input of the repaired sentPendingAck defect)
     cases.append(dict(id='corpus-one-batch', exporters=1, compression='', factory=False, workers=1, batches=1, points=[1], sleep_us=[0], seed=1, family='corpus'))
-    for i in range(30 * scale):
+    for i in range((40 if tier == 'quick' else 240)):
         fam = ['single', 'concurrent', 'multi', 'spread', 'factory'][i % 5]
         c = dict(id=f'{fam}-{i}', exporters=1, compression=rng.choice(['', 'zstd']), factory=False, workers=1, batches=1 + rng.below(5),
                  points=[1 + rng.below(12) for _ in range(1 + rng.below(3))], sleep_us=[0], seed=rng.below(1000), family=fam)
